@@ -167,7 +167,7 @@ func runCheck(prog *Program, prop, tier, verif, only string, loadSecs float64, t
 		if !c.hasProp(prop) {
 			continue
 		}
-		if (c.Kind == "func" || c.Kind == "closure") && !c.Opts["trusted"] {
+		if (c.Kind == "func" || c.Kind == "closure") && (!c.Opts["trusted"] || c.Opts["own"]) {
 			if only == "" || strings.Contains(c.Key, only) {
 				targets = append(targets, c)
 			}
